@@ -367,55 +367,48 @@ theorem _root_.SfntV.Spec.Shape.subEq_gpos31 (kp : Nat → Bool) (gd : Gdef) (pr
 
 /-! ## mark attachment -/
 
-/-- the engine's backward search (`findBase`, `baseOffsets`) finds the nearest covered glyph -/
-theorem findBase_spec (cov : Cov) (pre : List TG) (acc : Int) :
-    match pre.findIdx? (fun t => (covGet cov t.g.gid).isSome) with
-    | none => findBase cov (gl pre) acc = none
-    | some k => ∃ t i, pre[k]? = some t ∧ covGet cov t.g.gid = some i ∧
-        findBase cov (gl pre) acc = some (i, acc + advSum (pre.take (k + 1))) ∧
-        baseOffsets cov (gl pre) = (t.g.xoff, t.g.yoff) := by
+/-- the engine's backward search `findCand` stops at the first candidate glyph -/
+theorem findCand_spec (skip : Nat → Bool) (isCand : TG → Bool) (hc : ∀ t, isCand t = !skip t.g.gid)
+    (pre : List TG) (acc : Int) :
+    match pre.findIdx? isCand with
+    | none => findCand skip (gl pre) acc = none
+    | some k => ∃ t, pre[k]? = some t ∧
+        findCand skip (gl pre) acc = some (t.g, acc + advSum (pre.take (k + 1))) := by
   induction pre generalizing acc with
-  | nil => simp [findBase]
+  | nil => simp [findCand]
   | cons u us ih =>
     rw [List.findIdx?_cons]
-    cases hc : covGet cov u.g.gid with
-    | some i =>
-      simp only [Option.isSome_some, if_true]
-      refine ⟨u, i, by simp, hc, ?_, ?_⟩
-      · simp [findBase, hc, advSum]
-      · have hc' : covHas cov u.g.gid = true := by
-          show (covGet cov u.g.gid).isSome = true
-          rw [hc]; rfl
-        simp only [gl_cons, baseOffsets, hc', if_true]
-    | none =>
-      simp only [Option.isSome_none]
+    cases hs : skip u.g.gid with
+    | false =>
+      have hu : isCand u = true := by rw [hc, hs]; rfl
+      simp only [hu, if_true]
+      refine ⟨u, by simp, ?_⟩
+      simp [findCand, hs, advSum]
+    | true =>
+      have hu : isCand u = false := by rw [hc, hs]; rfl
+      simp only [hu]
       have := ih (acc + u.g.adv)
-      cases hf : us.findIdx? (fun t => (covGet cov t.g.gid).isSome) with
+      cases hf : us.findIdx? isCand with
       | none =>
         rw [hf] at this
-        simp [findBase, hc, this]
+        simp [findCand, hs, this]
       | some k =>
         rw [hf] at this
-        obtain ⟨t, i, h1, h2, h3, h4⟩ := this
+        obtain ⟨t, h1, h3⟩ := this
         simp only [Bool.false_eq_true, if_false, Option.map_some]
-        refine ⟨t, i, by simpa using h1, h2, ?_, ?_⟩
-        · simp only [gl_cons, findBase, hc, h3, List.take_succ_cons, advSum]
-          congr 2; omega
-        · have hc' : covHas cov u.g.gid = false := by
-            show (covGet cov u.g.gid).isSome = false
-            rw [hc]; rfl
-          simp only [gl_cons, baseOffsets, hc', h4]
-          simp
+        refine ⟨t, by simpa using h1, ?_⟩
+        simp only [gl_cons, findCand, hs, if_true, h3, List.take_succ_cons, advSum]
+        congr 2; omega
 
-
-theorem mark_ok (isCand : TG → Bool) (mc bc : Cov) (marks : List MarkRec) (bases : List (List Anchor))
-    (pre : List TG) (cur : TG) (post : List TG) (add : Bool) (r : Option Hit) :
+theorem mark_ok (skip : Nat → Bool) (isCand : TG → Bool) (hc : ∀ t, isCand t = !skip t.g.gid)
+    (mc bc : Cov) (marks : List MarkRec) (bases : List (List Anchor))
+    (pre : List TG) (cur : TG) (post : List TG) (r : Option Hit) :
     markAttach isCand mc bc marks bases pre cur post = .ok r →
     match r with
     | none =>
-      applyMark add ⟨(gl pre).reverse ++ cur.g :: gl post, []⟩ pre.length mc bc marks bases = .ok none
+      applyMark skip ⟨(gl pre).reverse ++ cur.g :: gl post, []⟩ pre.length mc bc marks bases = .ok none
     | some (.done dn rest) =>
-      applyMark add ⟨(gl pre).reverse ++ cur.g :: gl post, []⟩ pre.length mc bc marks bases
+      applyMark skip ⟨(gl pre).reverse ++ cur.g :: gl post, []⟩ pre.length mc bc marks bases
         = .ok (some (⟨gl (pre.reverse ++ dn ++ rest), []⟩, pre.length + dn.length))
     | some (.ctx _ _) => False := by
   intro hr
@@ -432,72 +425,72 @@ theorem mark_ok (isCand : TG → Bool) (mc bc : Cov) (marks : List MarkRec) (bas
     rw [hm] at hr
     simp only at hr ⊢
     obtain ⟨mr, hmr, hr⟩ := ebind_ok hr
-    obtain ⟨tgt, htgt, hr⟩ := ebind_ok hr
     simp only [idx_some (need_ok hmr), bind_ok_eq]
-    unfold attachTarget at htgt
-    have fb := findBase_spec bc pre 0
-    cases hf : pre.findIdx? (fun t => (covGet bc t.g.gid).isSome) with
+    unfold attachTarget at hr
+    have fb := findCand_spec skip isCand hc pre 0
+    cases hf : pre.findIdx? isCand with
     | none =>
-      rw [hf] at htgt fb
-      cases htgt
+      rw [hf] at hr fb
       cases hr
       simp only [fb]
       split <;> rfl
     | some k =>
-      rw [hf] at htgt fb
-      obtain ⟨t, i, ht, hi, hfb, hbo⟩ := fb
-      simp only at htgt
-      split at htgt
-      case isFalse => cases htgt
-      rw [ht] at htgt
-      simp only at htgt
-      rw [hi] at htgt
-      cases htgt
+      rw [hf] at hr fb
+      obtain ⟨t, ht, hfb⟩ := fb
       simp only at hr
-      have hk := lt_of_getElem? ht
+      rw [ht] at hr
+      simp only at hr
       have hne : (pre.length == 0) = false := by
         cases pre with
         | nil => simp at ht
         | cons _ _ => rfl
-      simp only [hne, hfb, hbo, Bool.false_eq_true, if_false]
-      obtain ⟨row, hrow, hr⟩ := ebind_ok hr
-      simp only [idx_some (need_ok hrow), bind_ok_eq]
-      cases hrw : row[mr.cls]? with
+      simp only [hne, hfb, Bool.false_eq_true, if_false]
+      cases hi : covGet bc t.g.gid with
       | none =>
-        rw [hrw] at hr
+        rw [hi] at hr
         cases hr
         rfl
-      | some anchor =>
-        rw [hrw] at hr
+      | some i =>
+        rw [hi] at hr
         simp only at hr ⊢
-        split at hr
-        · rename_i hz
+        obtain ⟨row, hrow, hr⟩ := ebind_ok hr
+        simp only [idx_some (need_ok hrow), bind_ok_eq]
+        cases hrw : row[mr.cls]? with
+        | none =>
+          rw [hrw] at hr
           cases hr
-          simp only [hz, if_true]
-        · rename_i hz
-          obtain ⟨g, hg, hr⟩ := ebind_ok hr
-          cases hr
-          unfold attach at hg
-          obtain ⟨x, hx, hg⟩ := ebind_ok hg
-          obtain ⟨y, hy, hg⟩ := ebind_ok hg
-          cases hg
-          obtain ⟨hx1, hx2⟩ := fit16_ok hx
-          obtain ⟨hy1, hy2⟩ := fit16_ok hy
-          have ex : t.g.xoff + (anchor.x - mr.x - (0 + advSum (List.take (k + 1) pre)))
-              = t.g.xoff + anchor.x - mr.x - advSum (List.take (k + 1) pre) := by omega
-          have ey : t.g.yoff + (anchor.y - mr.y) = t.g.yoff + anchor.y - mr.y := by omega
-          simp only [hz, Bool.false_eq_true, if_false, ex, ey, hx2, hy2, set_mid _ _ _ _ _ (glrev_len pre)]
-          subst hx1 hy1
-          simp [gl_reverse]
+          rfl
+        | some anchor =>
+          rw [hrw] at hr
+          simp only at hr ⊢
+          split at hr
+          · rename_i hz
+            cases hr
+            simp only [hz, if_true]
+          · rename_i hz
+            obtain ⟨g, hg, hr⟩ := ebind_ok hr
+            cases hr
+            unfold attach at hg
+            obtain ⟨x, hx, hg⟩ := ebind_ok hg
+            obtain ⟨y, hy, hg⟩ := ebind_ok hg
+            cases hg
+            obtain ⟨hx1, hx2⟩ := fit16_ok hx
+            obtain ⟨hy1, hy2⟩ := fit16_ok hy
+            have ex : t.g.xoff + (anchor.x - mr.x - (0 + advSum (List.take (k + 1) pre)))
+                = t.g.xoff + anchor.x - mr.x - advSum (List.take (k + 1) pre) := by omega
+            have ey : t.g.yoff + (anchor.y - mr.y) = t.g.yoff + anchor.y - mr.y := by omega
+            simp only [hz, Bool.false_eq_true, if_false, ex, ey, hx2, hy2, set_mid _ _ _ _ _ (glrev_len pre)]
+            subst hx1 hy1
+            simp [gl_reverse]
 
 theorem _root_.SfntV.Spec.Shape.subEq_gpos41 (kp : Nat → Bool) (gd : Gdef) (pre : List TG) (cur : TG) (post : List TG)
-    (mc bc : Cov) (marks : List MarkRec) (bases : List (List Anchor)) :
-    SubEq kp gd pre cur post (.gpos41 mc bc marks bases) := by
+    (mc bc : Cov) (marks : List MarkRec) (bases : List (List Anchor)) (gclass : ClassDef) :
+    SubEq kp gd pre cur post (.gpos41 mc bc marks bases gclass) := by
   apply subEq_of
   intro r hr
   simp only [matchSub] at hr
   simp only [applySub]
-  exact mark_ok _ mc bc marks bases pre cur post true r hr
+  exact mark_ok _ _ (fun _ => rfl) mc bc marks bases pre cur post r hr
 
 theorem _root_.SfntV.Spec.Shape.subEq_gpos61 (kp : Nat → Bool) (gd : Gdef) (pre : List TG) (cur : TG) (post : List TG)
     (mc bc : Cov) (marks : List MarkRec) (bases : List (List Anchor)) :
@@ -506,7 +499,7 @@ theorem _root_.SfntV.Spec.Shape.subEq_gpos61 (kp : Nat → Bool) (gd : Gdef) (pr
   intro r hr
   simp only [matchSub] at hr
   simp only [applySub]
-  exact mark_ok _ mc bc marks bases pre cur post false r hr
+  exact mark_ok _ _ (fun t => (Bool.not_not (kp t.g.gid)).symm) mc bc marks bases pre cur post r hr
 
 end Gpos
 end SfntV.Spec.Shape
